@@ -50,14 +50,14 @@ CHECKS["C02"] = dict(
 CHECKS["C08"] = dict(
    category="exploration", engine="B small-scope enumeration, permutation-invariance + reference predicate",
    technique="exhaustive enumeration of rule subsets x parameter variants x ALL permutations; metamorphic order-invariance plus three-valued reference applicability predicate",
-   text="10 node kinds x 3 positions x all subsets of <= 3 (thorough 4) of 18 rule names plus an unknown name and duplicated names x parameter variants, each compiled in every permutation: Check's verdict must not depend on the order, and must equal the applicability/consistency predicate written from the statement wherever that predicate is decided.",
+   text="10 node kinds x 3 positions x all subsets of <= 3 (thorough 4) of 18 rule names plus an unknown name and duplicated names x parameter variants, each compiled in every permutation: Check's verdict must not depend on the order, and must equal the applicability/consistency predicate written from the statement wherever that predicate is decided; plus scalar examples with rule sets of <= 3 (4) names from the kind's applicable pool with boundary parameters, which supply the well-formed (accept-side) cases.",
    note="Trusted: ref/wf predicate and ref/refv. Error codes are not compared; statement-silent combinations are Unspecified (listed in the evidence assumptions).",
    design="4/C08")
 
 CHECKS["C04"] = dict(
    category="exploration", engine="B small-scope enumeration of slots x contexts x single-rule corruptions",
    technique="exhaustive enumeration of annotated slots in nesting contexts with every single-rule corruption of the example; renderer offset map as position oracle",
-   text="34 annotated slots (every rule family incl. formats, enum, or, type references, item counts) x 13 nesting contexts x every single-rule corruption of the example: Check must fail and report the byte offset of the corrupted value; conversely all shapes <= 3 (4) nodes with every scalar leaf replaced by every slot, and every slot in every context: whenever Check succeeds, validating the example text succeeds.",
+   text="39 annotated slots (every rule family incl. formats, enum, or, type references, item counts, empty containers under type lists) x 17 nesting contexts (incl. siblings carrying type lists of their own) x every single-rule corruption of the example: Check must fail and report the byte offset of the corrupted value; conversely all shapes <= 3 (4) nodes with every scalar leaf replaced by every slot, and every slot in every context: whenever Check succeeds, validating the example text succeeds.",
    note="Trusted: the renderer's offset map. Error codes are not asserted; positions inside added types are not asserted.",
    design="4/C04")
 
@@ -70,7 +70,7 @@ CHECKS["C14"] = dict(
 
 CHECKS["C06"] = dict(
    category="exploration", engine="B exhaustive strings/values x whitespace placements, reference tokenizer, cross-scanner differential",
-   technique="exhaustive enumeration of valid JSON texts (all strings <= 5/6 symbols; all values <= 4/5 nodes x all placements of <= 2/3 whitespace gaps; depth-8 families) with an event-automaton oracle and a three-scanner differential",
+   technique="exhaustive enumeration of valid JSON texts (all strings <= 5/6 symbols; all values <= 4/5 nodes x all placements of <= 2/3 whitespace gaps; depth-8 families; every escape form in values and keys) with an event-automaton oracle and a three-scanner differential",
    text="For every enumerated valid JSON text the public NextLexeme stream is replayed through an event automaton that checks nesting, termination by io.EOF, spans inside the input, literal/key spans equal to the reference tokenizer's, container spans bracket to bracket, and that the value rebuilt from events alone equals the reference parse; the schema scanner and (for arrays of scalars) the enum scanner, driven through verif hooks on the same text in four embeddings, must produce the same (type, begin, end) sequence modulo new-line events.",
    note="Trusted: ref/jsonpda tokenizer/parser (cross-checked against encoding/json on every input). Exponent numerals are excluded from the cross-scanner relation.",
    design="4/C06")
@@ -92,14 +92,14 @@ CHECKS["C09"] = dict(
 CHECKS["C03"] = dict(
    category="exploration", engine="B small-scope enumeration of type environments x root constructs x documents",
    technique="exhaustive enumeration of four construct families (type references/or, allOf, additionalProperties, key shortcuts) x all small documents against a three-valued set-semantics reference, plus union differential",
-   text="All ordered pairs of user types from a 10-body pool plus a derived alias/or type x 12 root constructs x nullable x 6 positions x all documents <= 3 nodes (all arrays <= 3 elements for array positions); 9 allOf configurations x 4 additionalProperties settings x both configs x all 1024 objects over 5 keys; 13 additionalProperties settings x shapes x 150 objects; 5 key types x optionality x layouts x all objects with <= 3 members over 6 keys. The library verdict must equal the reference union/conjunction semantics and verdict(@A|@B) must equal verdict(@A) or verdict(@B).",
+   text="All ordered pairs of user types from a 10-body pool plus a derived alias/or type x 15 root constructs (also rule-sets with nullable next to a type reference) x nullable x 6 positions x all documents <= 3 nodes (all arrays <= 3 elements for array positions); 9 allOf configurations x 4 additionalProperties settings x both configs x all 1024 objects over 5 keys; 13 additionalProperties settings x shapes x 150 objects; 5 key types x optionality x layouts x all objects with <= 3 members over 6 keys. The library verdict must equal the reference union/conjunction semantics and verdict(@A|@B) must equal verdict(@A) or verdict(@B).",
    note="Trusted: ref/refv. Unspecified (counted in the evidence): cardinality/precedence of shortcut matches, presence of non-optional shortcut entries, rule-less key types, integer under additionalProperties float.",
    design="4/C03")
 
 CHECKS["C15"] = dict(
    category="exploration", engine="B small-scope enumeration over the merged schema corpus (C01/C03/C04/C09 generators + hostile keys)",
    technique="exhaustive enumeration of all Check-accepted generated schemas; well-formedness by reference PDA + encoding/json, self-validation, compact-equality",
-   text="Every Check-accepted case of the merged generators (all rule-free schemas <= 3/4 nodes in both configs, type-reference/or/allOf/additionalProperties/key-shortcut families, 34 rule slots x 13 contexts, all fully inhabited type graphs over 1-2 types and ring/diamond families with optional/array/terminating edges, the deep family of two types with every pair of slots per object body, hostile keys and strings): Example() must succeed, be well-formed JSON, be accepted by its own schema, and equal the compact example for plain-JSON schemas.",
+   text="Every Check-accepted case of the merged generators (all rule-free schemas <= 3/4 nodes in both configs, type-reference/or/allOf/additionalProperties/key-shortcut families, 34 rule slots x 13 contexts, all fully inhabited type graphs over 1-2 types and ring/diamond families with optional/array/terminating edges, the deep family of two types with every pair of slots per object body, hostile keys and strings with every control character): Example() must succeed, be well-formed JSON, be accepted by its own schema, and equal the compact example for plain-JSON schemas.",
    note="Trusted: reference PDA, encoding/json. Known finding (class decided by the check: a simulation of the documented cut-off policy itself yields a rejected example): recursion cut-off at required positions / first alternative gives self-rejected or empty examples.",
    design="4/C15")
 
@@ -113,7 +113,7 @@ CHECKS["C16"] = dict(
 CHECKS["C13"] = dict(
    category="exploration", engine="B small-scope enumeration x full product of spelling dimensions (metamorphic)",
    technique="exhaustive product of 324 schema spellings + notes + rule permutations over generated accepted and rejected schemas; document re-spellings x property permutations x escape spellings; reference-free equality of verdicts and ASTs",
-   text="Accepted and rejected schemas (rule slots x contexts x corruptions, construct families, rule sets on 10 node kinds, or rule-sets with every nested rule name) are rendered in the full product of line end x indentation x user comments x annotation form x quoted/bare rule names x trailing comma, with added notes and in every rule order: Check's verdict, the AST with comments blanked and the verdict of 22 probe documents plus the example must equal the canonical spelling's. Probe documents are re-spelled (4 whitespace layouts x all property orders x plain / \\uXXXX / \\/ string spellings): the verdict must not change under any schema.",
+   text="Accepted and rejected schemas (rule slots x contexts x corruptions, construct families, rule sets on 10 node kinds, or rule-sets with every nested rule name) are rendered in the full product of line end x indentation x user comments x annotation form x quoted/bare rule names x trailing comma (a # comment also follows inline annotations and notes), with notes added under the full product of line end x comments x annotation form, and in every rule order: Check's verdict, the AST with comments blanked and the verdict of 22 probe documents plus the example must equal the canonical spelling's. Probe documents are re-spelled (4 whitespace layouts x all property orders x plain / \\uXXXX / \\/ string spellings): the verdict must not change under any schema.",
    note="Reference-free. Not generated: comments inside rule objects, blanks inside empty brackets.",
    design="4/C13")
 
@@ -127,14 +127,14 @@ CHECKS["C07"] = dict(
 CHECKS["C12"] = dict(
    category="model_checking", engine="C controlled scheduler (sync shim injected by go-build overlay) + race detector as per-execution monitor",
    technique="stateless model checking of the real library: exhaustive DFS over thread schedules with a preemption bound at every sync.Once/Mutex/RWMutex/Pool operation, plus exhaustive pool-answer deviations; sequential-result oracle and happens-before race monitor on every execution",
-   text="58 closed scenarios (first use of an uncompiled shared schema by 2 threads for every pair of 7 operations and by 3 threads, 2 threads x 2 operations, 3 threads on a compiled schema, two roots sharing an added type, shared validation next to a private compile+Example, enum/regex first use) are executed under a cooperative scheduler injected into the library by a build overlay; ALL interleavings with <= 2 preemptions (light 2-thread scenarios; 1 for scenarios containing a whole compilation or 3 threads; thorough +1) and ALL pool-answer deviations <= 2 are explored; in every execution every call must return its sequential result, every Once body must run once, no deadlock/livelock may occur and the race detector (which sees no happens-before edge from the scheduler's norace hand-off) must stay silent.",
+   text="60 closed scenarios (first use of an uncompiled shared schema by 2 threads for every pair of 7 operations and by 3 threads, 2 threads x 2 operations, 3 threads on a compiled schema, two roots sharing an added type, shared validation next to a private compile+Example, enum/regex first use, 2 and 3 goroutines each creating/compiling/using private schemas) are executed under a cooperative scheduler injected into the library by a build overlay; ALL interleavings with <= 2 preemptions (light 2-thread scenarios; 1 for scenarios containing a whole compilation or 3 threads; thorough +1) and ALL pool-answer deviations <= 2 are explored; in every execution every call must return its sequential result, every Once body must run once, no deadlock/livelock may occur and the race detector (which sees no happens-before edge from the scheduler's norace hand-off) must stay silent.",
    note="Trusted: the shim scheduler (replay of a schedule is checked for divergence), the Go race detector. 2-3 goroutines, bounded preemptions. Known finding: roots sharing an added type that uses allOf corrupt it when compiled concurrently.",
    design="4/C12")
 
 CHECKS["C11"] = dict(
    category="model_checking", engine="A/D exhaustive operation histories on live objects + environment-choice exploration (pool answers, map iteration orders) through the build overlay",
    technique="exhaustive enumeration of all operation histories up to depth 3/4 over a pool of live objects against fresh-object results with returned-value snapshots; exhaustive single (thorough: double) deviations of every sync.Pool answer and of every dynamic range-over-map order",
-   text="All histories of <= 3 (thorough 4) operations from a 41-operation alphabet over live Schema/Document/Enum/Regex objects (plus 12-fold repetitions and round-robins): every result must equal the fresh-object result and every value handed out must be unchanged at the end; for histories <= 2 every pool answer is additionally deviated (fresh / oldest object). The library is built through an overlay that rewrites every range-over-map into iteration over an explicitly ordered key list: for a corpus of scenarios (a fixed slice of the C03/C09 generators in quick, all in thorough; multi-shortcut objects, allOf chains, errors located inside added types and allOf parents) every single (thorough: pair of) dynamic iteration order deviation (descending, rotations) must leave verdict, code, position, file and renderability of errors, AST, example and used types unchanged; static sites never reached with two keys are reported as uncovered.",
+   text="All histories of <= 3 (thorough 4) operations from a 46-operation alphabet over live Schema/Document/Enum/Regex objects (incl. an embedded document with trailing text and Validate / NextLexeme on live document objects that have only been through the rewinding Len/Check) (plus 12-fold repetitions and round-robins): every result must equal the fresh-object result and every value handed out must be unchanged at the end; for histories <= 2 every pool answer is additionally deviated (fresh / oldest object). The library is built through an overlay that rewrites every range-over-map into iteration over an explicitly ordered key list: for a corpus of scenarios (a fixed slice of the C03/C09 generators in quick, all in thorough; multi-shortcut objects, allOf chains, errors located inside added types and allOf parents) every single (thorough: pair of) dynamic iteration order deviation (descending, rotations) must leave verdict, code, position, file and renderability of errors, AST, example and used types unchanged; static sites never reached with two keys are reported as uncovered.",
    note="Trusted: the overlay rewrite (sound: every produced order is a legal Go order). Message text is not compared. Consumed Document objects are not re-validated.",
    design="4/C11")
 
